@@ -113,6 +113,7 @@ func c16(c *Ctx) {
 	if fn := c.Fn(gx, "R1", "(*registration).Unregister"); fn != nil {
 		fU := lookupField(gx.Pkg, "registration", "unreg")
 		// read-and-clear may be a helper of its own (takeUnreg): it is then that function's critical section that is judged
+		markers := unregMarkers(gx)
 		fn, _ = gx.workFunc(fn, func(n ast.Node) bool {
 			as, ok := n.(*ast.AssignStmt)
 			if !ok {
@@ -120,6 +121,9 @@ func c16(c *Ctx) {
 			}
 			for _, l := range as.Lhs {
 				if isField(info, l, fU) {
+					return true
+				}
+				if fv, _ := fieldOf(info, l); fv != nil && markers[fv] {
 					return true
 				}
 			}
@@ -139,6 +143,12 @@ func c16(c *Ctx) {
 					if isField(info, l, fU) && len(as.Lhs) == len(as.Rhs) && isNilIdent(info, as.Rhs[i]) {
 						isClear = true
 					}
+					// the explicit flag set: the claim "this registration is being unregistered"
+					if fv, _ := fieldOf(info, l); fv != nil && markers[fv] && len(as.Lhs) == len(as.Rhs) {
+						if tv, has := info.Types[as.Rhs[i]]; has && tv.Value != nil && tv.Value.String() == "true" {
+							isClear = true
+						}
+					}
 				}
 			}
 			if isClear {
@@ -149,6 +159,11 @@ func c16(c *Ctx) {
 			inspectNoLit(x.N, func(n ast.Node) bool {
 				if e, ok := n.(ast.Expr); ok && isField(info, e, fU) {
 					hit = true
+				}
+				if e, ok := n.(ast.Expr); ok {
+					if fv, _ := fieldOf(info, e); fv != nil && markers[fv] {
+						hit = true
+					}
 				}
 				return true
 			})
@@ -432,10 +447,18 @@ func c16(c *Ctx) {
 		})
 		good := len(regCalls) == 1
 		if good {
+			markers := unregMarkers(gx)
 			good, _ = g.DominatedByEdges(regCalls[0], func(e *GEdge) bool {
 				return edgeImplies(e, func(cnd ast.Expr, pol int) bool {
 					nn, ok := nilCmp(info, cnd, pol, func(x ast.Expr) bool { return isField(info, x, fU) })
-					return ok && nn
+					if ok && nn {
+						return true
+					}
+					// … or the explicit "unregistered" flag read as false
+					if fv, _ := fieldOf(info, cnd); fv != nil && markers[fv] && pol < 0 {
+						return true
+					}
+					return false
 				})
 			})
 		}
@@ -490,4 +513,52 @@ func c16(c *Ctx) {
 		}
 		c.Check(good && n == 1 && after, "R4", "global|"+sp.fn+"|setDelegate inside sync.Once, global Store after it", at(gx.M, fn.Pos()), "placeholders are connected once, before the SDK becomes the global", "placeholders can be connected twice / never, or the SDK is published before they are connected")
 	}
+}
+
+// unregMarkers (C16): the boolean fields of registration that record "Unregister has been called" — an explicit flag next to the
+// unreg function (the historical marker is unreg == nil itself). A field qualifies when it is assigned the constant true in a
+// function of the package that also touches unreg.
+func unregMarkers(gx *PkgIndex) map[*types.Var]bool {
+	info := gx.Pkg.TypesInfo
+	fU := lookupField(gx.Pkg, "registration", "unreg")
+	out := map[*types.Var]bool{}
+	n := lookupType(gx.Pkg, "registration")
+	if n == nil || fU == nil {
+		return out
+	}
+	st, ok := n.Underlying().(*types.Struct)
+	if !ok {
+		return out
+	}
+	cands := map[*types.Var]bool{}
+	for i := 0; i < st.NumFields(); i++ {
+		if b, isB := st.Field(i).Type().Underlying().(*types.Basic); isB && b.Info()&types.IsBoolean != 0 {
+			cands[st.Field(i)] = true
+		}
+	}
+	for _, f := range gx.All {
+		touches := false
+		var set []*types.Var
+		inspectNoLit(f.Body(), func(nd ast.Node) bool {
+			if e, isE := nd.(ast.Expr); isE && isField(info, e, fU) {
+				touches = true
+			}
+			if as, isAs := nd.(*ast.AssignStmt); isAs && len(as.Lhs) == len(as.Rhs) {
+				for i, l := range as.Lhs {
+					if fv, _ := fieldOf(info, l); fv != nil && cands[fv] {
+						if tv, has := info.Types[as.Rhs[i]]; has && tv.Value != nil && tv.Value.String() == "true" {
+							set = append(set, fv)
+						}
+					}
+				}
+			}
+			return true
+		})
+		if touches {
+			for _, fv := range set {
+				out[fv] = true
+			}
+		}
+	}
+	return out
 }
